@@ -498,8 +498,8 @@ impl C12 {
 
 fn gen_data(r: &mut Xo, n: usize, p: usize, f32m: bool) -> (Vec<Vec<f64>>, &'static str) {
     let kind = r.below(7);
-    // scales stay >= 1e-2: blob spreads are then >= 1e-4, six orders above the tree's absolute 1e-10 merge radius
-    let scale = *r.pick(&[0.01, 1.0, 1.0, 10.0, 1000.0]);
+    // scales down to 1e-4: blob spreads are then >= 1e-6, still 10000x the tree's absolute 1e-10 merge radius
+    let scale = *r.pick(&[0.01, 1.0, 1.0, 10.0, 1000.0, 1e-4]);
     let offset = if r.chance(0.3) { scale * r.range(-20.0, 20.0) } else { 0.0 };
     let mut data: Vec<Vec<f64>> = Vec::with_capacity(n);
     let name;
@@ -740,7 +740,20 @@ fn gen_case(batch: &str, _index: u64, seed: u64) -> Case {
         // few rows, many clusters: clusters empty out and fill up again; either a coarse lattice (exact ties) or
         // pairs of rows a relative 1e-6..1e-12 of the range apart (>= 1e-8 absolute) (far above the tree's absolute 1e-10 merge radius,
         // so every row must still find ITS nearest centroid)
-        if pr.chance(0.5) {
+        let style = pr.below(3);
+        if style == 2 {
+            // a tiny cloud: every row within ~1e-8 of one point (distinct rows several 1e-10 apart — above what
+            // the tree merges — around an offset of 0, 1 or 100): the total distortion is of the order of epsilon
+            let step = *pr.pick(&[5e-10, 1e-9, 1e-8]);
+            let off = *pr.pick(&[0.0, 1.0, 100.0]);
+            let levels = pr.usize_in(3, 14) as u64;
+            for row in data.iter_mut() {
+                for v in row.iter_mut() {
+                    *v = off + step * r.below(levels + 1) as f64;
+                }
+            }
+            dname = "crowded-tiny-cloud";
+        } else if style == 0 {
             let levels = pr.usize_in(2, 8) as u64;
             for row in data.iter_mut() {
                 for v in row.iter_mut() {
